@@ -13,6 +13,7 @@ from conda_content_trust import authentication as A, common as C, signing as S
 from vlib import configrun, gen_envelope as GE, gen_json as G, gen_metadata as GM, keys, ref_verify as RV
 from vlib.ref_canon import canon
 from vlib.runner import REPO, Unit, Violation
+from vlib import clicheck as _clicheck
 from vlib import threaded as _threaded
 from vlib import interfere as _interfere, interrupt as _interrupt
 
@@ -356,4 +357,5 @@ UNITS = [
          doc="fresh interpreters: pre-imported modules x PYTHONIOENCODING x hash seed x locale x cwd"),
     _interfere.unit_after(PROPERTY, 'signable', quick=150, thorough=6000),
     _threaded.unit_threads(PROPERTY),
+    _clicheck.unit_cli(),
 ]
